@@ -2,7 +2,7 @@
 import z3
 from pyvc.core import (Val, VNone, VTrue, VFalse, VInt, VStr, VBool, VRef, I, B, S, IntOk, IntOf, Lower, Strip,
                        Basename, ClassName, IsSub, StrOf, IdStr)
-from pyvc.contract import (contract, extern, class_invariant, FRESH, VAL, SEQ, ANY, INT, STR, BOOL, NONE, FLOAT, OBJ, LIST, TUPLE, DICT,
+from pyvc.contract import (contract, extern, class_invariant, FRESH, VAL, SEQ, HOSTOBJ, ANY, INT, STR, BOOL, NONE, FLOAT, OBJ, LIST, TUPLE, DICT,
                            STRDICT, OPT, CALLABLE, FRAME, P, ite)
 
 TRIGGER = "api/tracepoint/trigger.py"
@@ -75,6 +75,20 @@ def cfg_value_ok(v):
     return Or(Val.is_VStr(v), Val.is_VInt(v))
 
 
+def _location_typed(S_, loc):
+    """an action is unattached, or attached to the Trigger it belongs to"""
+    from pyvc.contract import CLASS_INVARIANTS
+    inv = CLASS_INVARIANTS.get("Trigger")
+    if inv is None:
+        return Or(Val.is_VNone(loc), S_.pre(loc, "Trigger"))
+    h = S_.new
+    tl = h.f(loc, "Trigger.__location")
+    shallow = And(S_.pre(loc, "Trigger"), Val.is_VRef(tl), Val.r(tl) > 0,
+                  Or(And(h.typeof(tl) == S_.cid("LineLocation"), CLASS_INVARIANTS["LineLocation"](S_, tl)),
+                     And(h.typeof(tl) == S_.cid("FunctionLocation"), CLASS_INVARIANTS["FunctionLocation"](S_, tl))))
+    return Or(Val.is_VNone(loc), shallow)
+
+
 @class_invariant("LocationAction")
 def inv_action(S_, a):
     h = S_.new
@@ -100,4 +114,5 @@ def inv_action(S_, a):
         h.dlen(cfg) >= 0,
         Or(*[h.f(a, "LocationAction.__action_type") == S_.enum("LocationAction.ActionType", m)
              for m in ("Snapshot", "Log", "Metric", "Span")]),
+        _location_typed(S_, h.f(a, "LocationAction.__location")),
     )
